@@ -14,8 +14,9 @@ MODELLED = ("the access level attached to a member is proved on the regenerated 
             "_maybe_parse_class_enum_decl (ClassEnum), constructor / destructor recognition (CtorDtor), method tails with constructor initialiser "
             "lists (MethodTail), field and typedef statements (Members) and WHOLE member statements -- fields and methods mixed in one declarator "
             "list, endings, constructors and destructors (MemberStmt, mirroring _parse_declarations / _parse_decl / _parse_function / _parse_field "
-            "in a class body). NOT modelled (decided by the AST-first class search): operator and conversion-operator names, friend / typedef / "
-            "template / using members as dispatched around the statement, trailing return types, requires-clauses on methods, anonymous-id sharing")
+            "in a class body), conversion operators (ConvOp), operator members (OperatorMember over OpName), friends (FriendStmt), what follows the "
+            "closing brace of a definition (FinishClass). NOT modelled (decided by the AST-first class search): typedef / template / using members "
+            "as dispatched around the statement, trailing return types, requires-clauses on methods, the numbering of anonymous ids")
 ASSUMPTIONS = []
 
 
@@ -1723,14 +1724,17 @@ LEVEL_TEXT = ("PARTIAL. Proved in Coq, for inputs of any size: a member statemen
               "legal object type, bit-field width, initialiser) and methods (any legal return type and parameter list, qualifiers in any order) in any "
               "mixture yields exactly one member per declarator, in order, each of its own kind, with its own qualifier set and the ending written "
               "(member_statement_decodes_partial); `C(...) quals end` / `~C(...) quals end` in class C is one method flagged constructor / destructor "
-              "without return type, member initialiser lists skipped exactly (special_member_statement_decodes_partial, constructor_in_class ...); "
+              "without return type, member initialiser lists skipped exactly (special_member_statement_decodes_partial, constructor_in_class ...); conversion operators, overloaded-operator members (the "
+              "operator is exactly the tokens behind `operator`), friend functions and friend types as whole statements; what follows the closing "
+              "brace of a definition -- every trailing declarator is built on the one type of the definition, so an anonymous id is shared by "
+              "exactly these declarators (anonymous_id_shared_by_its_declarators); "
               "base lists of any length report every base once, in order, with its flags and the class-key default access per base "
               "(base_clause_decodes_partial); the decision table of elaborated-type members (forward / friend / class / enum and the reject rules); "
               "and, on the regenerated block machine, the access delivered with a member equals the backward-scan specification for every prefix of "
               "events and any nesting depth (access_in_force_partial). Tie: every model is extracted and run beside parse_string / the real method "
               "on valid and mutated token lists; the mirrored functions are AST-digest pinned; the block machine is run against the real callback "
-              "stream. Operators, friend / typedef / template / using members, trailing return types and anonymous-id sharing are decided by the "
-              "AST-first class search whose expectation is built by the generator.")
+              "stream. Typedef / template / using members as dispatched around the statement, trailing return types, requires-clauses on methods and "
+              "the numbering of anonymous ids across definitions are decided by the AST-first class search whose expectation is built by the generator.")
 LEVEL_NOTE = ("Trusted: Coq kernel, atom vocabulary, extraction, driver, harness. The hand-written models mirror the Python code; their agreement "
               "is checked by the differential runs, not proved.")
 TECHNIQUE = "Coq proofs (whole member statements, constructors / destructors, base clauses, method tails: unbounded; backward-scan access specification over regenerated effect atoms) + differential runs + AST-digest pins + AST-first class-definition search"
